@@ -918,10 +918,12 @@ func (p *ValidateTxAndPayClaimInvoiceAction) Execute(services *SwapServices, swa
 	if !ok {
 		return swap.HandleError(errors.New("tx is not valid"))
 	}
+	// The claim invoice is already paid (e.g. we were restarted after the
+	// payment result was stored): never pay or give up again, go on claiming.
+	if swap.ClaimPreimage != "" {
+		return Event_ActionSucceeded
+	}
 	if !policy.AllowNewClaimPayment {
-		if swap.ClaimPreimage != "" {
-			return Event_ActionSucceeded
-		}
 		preimage, err := lc.RecoverClaimPayment(swap.OpeningTxBroadcasted.Payreq)
 		if err != nil {
 			return swap.HandleError(fmt.Errorf("recover legacy claim payment: %w", err))
